@@ -131,6 +131,8 @@ pub fn c02<T: Full>(g: &mut Gen, b: &Budget, out: &mut Sink) {
         let case = format!("enc {} {}", ty, val_of(&v));
         let (eo, bs) = enc_obs(&v);
         out.case(&case, &eo);
+        // the same value against the specification function
+        out.case(&format!("spec {} {}", ty, val_of(&v)), &eo);
         // to_writer into a Vec gives the same bytes as to_vec
         if let Some(bs) = bs {
             let mut w: Vec<u8> = Vec::new();
@@ -138,6 +140,27 @@ pub fn c02<T: Full>(g: &mut Gen, b: &Budget, out: &mut Sink) {
             out.oracle("C02", matches!(r, Ok(Ok(()))) && w == bs, &case, "to_writer differs from to_vec");
         }
     }
+}
+
+/// lengths that do not fit `u32` are refused (lazily zeroed memory: nothing is touched)
+pub fn c02_too_long(out: &mut Sink) {
+    let big: Vec<u8> = vec![0u8; 1usize << 32];
+    let (eo, _) = enc_obs(&big);
+    out.oracle("C02", eo == "err invalidData simple", "enc (seq vec u8) <2^32 zero bytes>", &eo);
+    let ol = guarded(|| borsh::object_length(&big));
+    out.oracle("C02", matches!(ol, Ok(Err(_))), "object_length (seq vec u8) <2^32 zero bytes>", "accepted");
+    let s = unsafe { String::from_utf8_unchecked(big) };
+    let (eo, _) = enc_obs(&s);
+    out.oracle("C02", eo == "err invalidData simple", "enc (str string) <2^32 zero bytes>", &eo);
+    let mut big = s.into_bytes();
+    big.truncate((1usize << 32) - 1);
+    let ol = guarded(|| borsh::object_length(&big));
+    out.oracle(
+        "C02",
+        matches!(ol, Ok(Ok(n)) if n == (1usize << 32) + 3),
+        "object_length (seq vec u8) <2^32-1 zero bytes>",
+        &format!("{:?}", ol.map(|r| r.map_err(|e| e.to_string()))),
+    );
 }
 
 // ------------------------------------------------------------------ C04 / C16: malformed input
